@@ -283,11 +283,13 @@ class Ctx:
             return list(ex.map(lambda nt: self.coq_eval(nt[0], nt[1], timeout), files))
 
     # -- exact-certificate protocol --------------------------------------------------------------
-    def coq_check_cases(self, tag, header, case_terms, check_fn, shard=400, extra_defs="", max_bytes=60000):
+    def coq_check_cases(self, tag, header, case_terms, check_fn, shard=400, extra_defs="", max_bytes=60000, alt_fn=None):
         """Let Coq decide `check_fn case = true` for every case term.
-        Returns the list of indices (into case_terms) for which the model disagrees, or raises
+        Returns the list of indices (into case_terms) for which the check is false, or raises
         CoqRunError if a file did not compile for another reason.
-        Each shard file ends with `Lemma corr : bad = []` -- the kernel-checked certificate."""
+        Each shard file ends with the kernel-checked certificate `Lemma corr : bad = []`.
+        With alt_fn (the faithful model of a listed known finding) the certificate is
+        `every case passes check_fn or alt_fn`, and the return value is (bad, bad_even_with_alt)."""
         files = []
         spans = []
         k = 0
@@ -303,25 +305,33 @@ class Ctx:
             body.append(f"Definition results : list bool := Eval vm_compute in (map ({check_fn}) cases).")
             body.append("Definition bad : list nat := Eval vm_compute in (failing_idx results).")
             body.append("Eval vm_compute in bad.")
-            body.append("Lemma corr : bad = []. Proof. reflexivity. Qed.")
+            if alt_fn:
+                body.append(f"Definition results2 : list bool := Eval vm_compute in (map (fun c => ({check_fn}) c || ({alt_fn}) c) cases).")
+                body.append("Definition bad2 : list nat := Eval vm_compute in (failing_idx results2).")
+                body.append("Eval vm_compute in bad2.")
+                body.append("Lemma corr : bad2 = []. Proof. reflexivity. Qed.")
+            else:
+                body.append("Lemma corr : bad = []. Proof. reflexivity. Qed.")
             files.append((f"{tag}_{len(files)}", "\n".join(body) + "\n"))
             spans.append(k)
             k = j
         res = self.coq_eval_many(files)
-        badidx = []
+        badidx, bad2idx = [], []
         for (rc, out), k0, (nm, _) in zip(res, spans, files):
             self.case_lemmas += 1
             vals = parse_evals(out)
-            if not vals:
+            need = 2 if alt_fn else 1
+            if len(vals) < need:
                 raise CoqRunError(f"case file {nm} produced no result:\n{out[-2000:]}")
-            lst = parse_nat_list(vals[-1])
-            if rc == 0 and not lst:
+            lst = parse_nat_list(vals[0])
+            lst2 = parse_nat_list(vals[1]) if alt_fn else lst
+            if rc == 0 and not lst2:
                 self.case_lemmas_ok += 1
-            elif lst:
-                badidx.extend(k0 + i for i in lst)
-            else:
+            elif not lst2:
                 raise CoqRunError(f"case file {nm} failed:\n{out[-2000:]}")
-        return badidx
+            badidx.extend(k0 + i for i in lst)
+            bad2idx.extend(k0 + i for i in lst2)
+        return (badidx, bad2idx) if alt_fn else badidx
 
     # -- verdict --------------------------------------------------------------------------------
     def finish(self, level="proof", rule="", assumptions=None, trusted_extra=None, exhaustive=None, extra_cov=None):
